@@ -304,3 +304,41 @@ func vh_C11_L8_advertised_window_is_exact() {
 	vassert(ok && w == buf, "once everything has been read the whole buffer is advertised again")
 	vcover("end")
 }
+
+// C11.L9: what a forward-TSN purges from the unordered queues is decided by the new cumulative
+// TSN it carries (and, with I-DATA, by serial comparison of the message identifiers it
+// names), not by where the cumulative point ends up. (a) DATA: TSN c+1 and c+2 were lost and
+// abandoned, c+3 - the first fragment of a live reliable unordered message - has arrived;
+// FORWARD-TSN(c+2) makes the cumulative point run on to c+3, but the fragment stays, the
+// message completes with c+4 and is delivered; the window returns to full. (b) I-DATA: an
+// incomplete unordered message with a message identifier just below 2^32 is purged by an
+// I-FORWARD-TSN naming an identifier just above the wrap, and its bytes are released.
+func vh_C11_L9_forward_tsn_purges_by_what_it_names() {
+	if vPick(2) == 0 {
+		a, _ := vNewAssocOpts(vAssocOpts{fixedTSN: true})
+		a.useForwardTSN = true
+		c := a.peerLastTSN()
+		live := vMakeMsg(4, false, true, 0, 0, c+3, 2, PayloadTypeWebRTCString)
+		vassert(vDeliver(a, live.chunks[0]) == nil, "DATA ok")
+		vassert(vDeliver(a, &chunkForwardTSN{newCumulativeTSN: c + 2}) == nil, "FORWARD-TSN ok")
+		vassert(a.peerLastTSN() == c+3, "the cumulative point runs on over the fragment already received")
+		vassert(a.streams[4].getNumBytesInReassemblyQueue() == 1, "the live fragment above the skipped range is kept")
+		vassert(vDeliver(a, live.chunks[1]) == nil, "DATA ok")
+		buf := make([]byte, 8)
+		vMustNotBlock("the completed message is readable")
+		n, ppi, err := a.streams[4].ReadSCTP(buf)
+		vMayBlock()
+		vassert(err == nil && n == 2 && ppi == PayloadTypeWebRTCString && buf[0] == live.bytes[0] && buf[1] == live.bytes[1], "the live message is delivered whole")
+		vassert(a.getMyReceiverWindowCredit() == a.maxReceiveBufferSize, "the window returns to the full buffer")
+		vcover("end")
+		return
+	}
+	r := newReassemblyQueue(3, 0)
+	mid := uint32(0xfffffffe) + uint32(vPick(2))
+	dead := vMakeMsg(3, true, true, 0, mid, nondetU32(), 2, PayloadTypeWebRTCBinary)
+	r.push(dead.chunks[vPick(2)])
+	vassert(r.getNumBytes() == 1, "one fragment of the abandoned message is held")
+	r.forwardTSNForUnorderedMID(mid + 1 + uint32(vPick(2))) // 0xffffffff, 0 or 1: at or past the wrap
+	vassert(r.getNumBytes() == 0, "the abandoned unordered message is purged although the identifier named lies past the 2^32 wrap")
+	vcover("end")
+}
